@@ -91,6 +91,8 @@ class C04(Check):
         wk, build, planted, devs, ms = st
         if wk[0] == "shipped":
             return
+        if devs and not ((wk == ("toy",) or wk.table == "small") and len(planted) <= 2):
+            return      # second deviation only on the toy and the small worlds, two copies
         gene = worlds.gene_of(wk, build)
         base = self._base(gene, planted)
         last = devs[-1] if devs else None
